@@ -105,3 +105,19 @@ def kf_empty_host_eager(f):
     if auth is None:
         return False
     return auth == "" or ref.split_authority(auth)[2] is None
+
+
+@recogniser("KF-ZONE-NONASCII", "C01", "C16", "C19")
+def kf_zone_nonascii(f):
+    """a non-ASCII IPv6 zone id is stored verbatim: every non-ASCII character of str() lies in the zone of the host"""
+    if f["clause"] not in ("string form is not pure ASCII", "bytes(url) failed"):
+        return False
+    obs = f["observed"]
+    s, host = obs.get("str"), obs.get("raw_host")
+    if not isinstance(s, str) or not isinstance(host, str) or "%" not in host or ":" not in host:
+        return False
+    addr, _, zone = host.partition("%")
+    if not addr.isascii() or zone.isascii():
+        return False
+    rest = s.replace("[" + host + "]", "", 1)
+    return rest.isascii() and rest != s
